@@ -351,14 +351,28 @@ theorem query_hash_action_is_constant (H : Bytes → Bytes) (q : List (Bytes × 
   · subst heq; simp at hv; exact hv.2.symm
   · rename_i hne; subst heq; exact absurd hk hne
 
-/-- **ip_mask**, when `net.ParseIP` accepts the host: the emitted element is a function of the masked
-    address bytes and the port only — two addresses with the same network part are logged identically.
-    (Full statement: `Witness.ipmask_full_fails`.) -/
-theorem ipmask_hides_host_bits_partial (o : Oracles) (m4 m6 : Option (List UInt8)) (v v' : Bytes) (ip ip' : IPAddr)
-    (h1 : o.parseIP (hostOf o v) = some ip) (h2 : o.parseIP (hostOf o v') = some ip')
+/-- **ip_mask.** An element denotes an IP address when `net.ParseIP` accepts its host part with the zone cut
+    off (`host`, `host:port`, `[host]:port`, each with or without `%zone`).  For such elements the emitted
+    text is a function of the masked address bytes and the port only — two addresses with the same network
+    part are logged identically.  (Elements that are not IP addresses have no host bits to hide and are
+    copied; the behaviour before the zone fix: `Witness.ipmask_old_code_fails`.) -/
+theorem ipmask_hides_host_bits (o : Oracles) (m4 m6 : Option (List UInt8)) (v v' : Bytes) (ip ip' : IPAddr)
+    (h1 : o.parseIP (cutZone (hostOf o v)) = some ip) (h2 : o.parseIP (cutZone (hostOf o v')) = some ip')
     (hnet : maskedOf m4 m6 ip = maskedOf m4 m6 ip') (hport : portOf o v = portOf o v') :
     maskValue o m4 m6 v = maskValue o m4 m6 v' := by
   simp [maskValue, h1, h2, hnet, hport]
+
+/-- **zones.** The zone of an address never reaches the log: two elements whose hosts differ only in the
+    zone (`fe80::1%eth0`, `fe80::1%wlan1`, `fe80::1`) are logged identically. -/
+theorem ipmask_zone_independent (o : Oracles) (m4 m6 : Option (List UInt8)) (v v' : Bytes)
+    (hhost : cutZone (hostOf o v) = cutZone (hostOf o v')) (hport : portOf o v = portOf o v')
+    (hip : (o.parseIP (cutZone (hostOf o v))).isSome = true) :
+    maskValue o m4 m6 v = maskValue o m4 m6 v' := by
+  unfold maskValue
+  rw [← hhost, ← hport]
+  cases h : o.parseIP (cutZone (hostOf o v)) with
+  | none => simp [h] at hip
+  | some ip => rfl
 
 /-- the string-level glue of `mask` (append `, ` after every element, `TrimSuffix` once) is exactly
     "process every comma-separated element on its own and join with `, `": no element can influence how
@@ -441,6 +455,11 @@ example : maskValue exO (cidr4 16) (cidr6 32) (str "10.1.2.3") = str "10.1.0.0" 
     maskValue exO (cidr4 16) (cidr6 32) (str "10.1.9.9") = str "10.1.0.0" ∧
     maskedOf (cidr4 16) (cidr6 32) (.v4 [10, 1, 2, 3]) = maskedOf (cidr4 16) (cidr6 32) (.v4 [10, 1, 9, 9]) := by decide
 example : maskValue exO (cidr4 16) (cidr6 32) (str "10.1.2.3:80") = str "10.1.0.0:80" := by decide
+example : cutZone (str "fe80::1%eth0") = str "fe80::1" ∧ cutZone (str "10.1.2.3") = str "10.1.2.3" := by decide
+-- a zoned link-local address is masked, and the zone is gone
+example : maskValue wZ (cidr4 16) (cidr6 32) (str "fe80::1%eth0") = str "fe80::" ∧
+    maskValue wZ (cidr4 16) (cidr6 32) (str "fe80::1%wlan1") = str "fe80::" ∧
+    (wZ.parseIP (cutZone (hostOf wZ (str "fe80::1%eth0")))).isSome = true := by decide
 example : queryStr exO [⟨.delete, str "token", []⟩] (str "/a?token=S&x=1") = str "/a?x=1" := by decide
 example : queryStr exO [⟨.replace, str "token", str "R"⟩] (str "/a?token=S&x=1") = str "/a?token=R&x=1" := by decide
 example : queryStr exO [⟨.hash, str "token", []⟩] (str "/a?token=S&x=1") = str "/a?token=h&x=1" := by decide
